@@ -842,6 +842,41 @@ var readOps = []readOp{
 		l.ForEachAsync(func(i int, v any) { atomic.AddInt64(&n, int64(i)) })
 		return fmt.Sprint(n)
 	}},
+	{"List.typed-views", func(l at.List, o at.Object) string {
+		var b strings.Builder
+		fmt.Fprint(&b, stringCanon(l.MapInts(func(x int) any { return x + 1 })), stringCanon(l.MapStrings(func(x string) any { return x + "!" })), stringCanon(l.MapFloats(func(x float64) any { return x * 2 })),
+			stringCanon(l.MapBools(func(x bool) any { return !x })), stringCanon(l.MapObjects(func(x at.Object) any { return x.Count() })), stringCanon(l.MapLists(func(x at.List) any { return x.Count() })),
+			stringCanon(l.MapValues(func(v any) any { return nil })), l.FilterObjects(func(at.Object) bool { return true }).Count(), l.FilterLists(func(at.List) bool { return true }).Count(),
+			stringCanon(l.FilterStrings(func(x string) bool { return x != "" })), stringCanon(l.FilterFloats(func(x float64) bool { return x > 0 })),
+			l.ReduceStrings("", func(a, x string) string { return a + x }), l.ReduceFloats(0, func(a, x float64) float64 { return a + x }),
+			l.AllStrings(), l.AllFloats(), l.AllBools(), l.AllObjects(), l.AllLists(), l.Ego() == l)
+		n := 0
+		l.ForEachValue(func(any) { n++ })
+		l.ForEachString(func(string) { n += 2 })
+		l.ForEachFloat(func(float64) { n += 3 })
+		l.ForEachBool(func(bool) { n += 5 })
+		l.ForEachObject(func(at.Object) { n += 7 })
+		l.ForEachList(func(at.List) { n += 11 })
+		fmt.Fprint(&b, n)
+		return b.String()
+	}},
+	{"List.float-aggregates", func(l at.List, o at.Object) string {
+		// on a list that is not all numeric these may panic or skip: whatever they do alone, they do in company
+		return fmt.Sprint(protectStr(func() string { return fmt.Sprint(l.Sum()) }), protectStr(func() string { return fmt.Sprint(l.Prod()) }), protectStr(func() string { return fmt.Sprint(l.Min()) }),
+			protectStr(func() string { return fmt.Sprint(l.Max()) }), protectStr(func() string { return fmt.Sprint(l.Avg()) }))
+	}},
+	{"Object.typed-views", func(l at.List, o at.Object) string {
+		n := 0
+		o.ForEachValue(func(any) { n++ })
+		o.ForEachInt(func(int) { n += 2 })
+		o.ForEachString(func(string) { n += 3 })
+		o.ForEachObject(func(at.Object) { n += 5 })
+		o.ForEachList(func(at.List) { n += 7 })
+		o.ForEachFloat(func(float64) { n += 11 })
+		o.ForEachBool(func(bool) { n += 13 })
+		return fmt.Sprint(n, stringCanon(o.MapInts(func(x int) any { return x + 1 })), stringCanon(o.MapStrings(func(x string) any { return x + "!" })), stringCanon(o.MapObjects(func(x at.Object) any { return x.Count() })),
+			stringCanon(o.MapLists(func(x at.List) any { return x.Count() })), stringCanon(o.MapValues(func(v any) any { return true })), o.KeyExists("str"), o.Empty(), o.Ego() == o) // (KeyOf is left out: for a value held under several keys its answer follows the map iteration order)
+	}},
 	{"Object.String", func(l at.List, o at.Object) string {
 		s := o.String()
 		p, err := at.ParseObject(s)
